@@ -6,9 +6,69 @@
     stopped before that token; text returns the bytes of exactly that range and slices inside the
     text. For wrapped parsers of the C06 core fragment that succeed without consuming a token the
     captured span is empty and the text is the empty string.
-    Not covered by a theorem (correspondence + oracle): that the end is the end of the LAST token
-    consumed (it is the wrapped parser's cursor), and the case of an exhausted stream. *)
-From Tephra Require Import MetricsSpec CLexer LexerFacts Run Peg RunCore RunCapture.
+    For wrapped parsers of the sub-free core fragment ([core0]: the C06 core without sub) the
+    statement is exact: the tokens consumed are a prefix x..y of the deliverable stream, the span is
+    [start of x, end of y) and the text its bytes; nothing consumed gives the empty span / string
+    ([C14_spanned_exact], [C14_text_exact], from the cursor-tracking theorem [C14_cursor_tracking]).
+    Not covered by a theorem (correspondence + oracle): wrapped parsers outside [core0] (sub moves
+    the cursor over filtered tokens at a parse start; repetitions; recovering combinators), and the
+    case of an exhausted stream. *)
+From Tephra Require Import MetricsSpec CLexer LexerFacts Run Peg RunCore RunCapture RunMove.
+
+(** where a successful parse of the sub-free core leaves the lexer: the consumed tokens are a
+    prefix of the deliverable stream; the cursor is at the end of the last one; the parse span
+    starts at the first one when the lexer stood at a parse start *)
+Theorem C14_cursor_tracking :
+  forall m, 1 <= tabw m -> forall t, wf_text t ->
+  forall fuel g, core0 g = true -> forall lx ys c st, Inv m t lx ys ->
+  match run fuel g lx c st with
+  | (ROk _ lx', _) =>
+    exists ys' consumed, Inv m t lx' ys' /\ c_filter lx' = c_filter lx
+      /\ kept (c_filter lx) ys = consumed ++ kept (c_filter lx) ys' /\ moved lx lx' consumed
+  | _ => True
+  end.
+Proof. exact core0_tracked. Qed.
+Print Assumptions C14_cursor_tracking.
+
+Theorem C14_moved_meaning :
+  forall lx lx' consumed, moved lx lx' consumed =
+  match consumed with
+  | [] =>
+    (c_ps lx = c_cur lx -> c_ps lx' = c_cur lx' /\ byte (c_cur lx) <= byte (c_cur lx'))
+    /\ (c_ps lx <> c_cur lx -> c_cur lx' = c_cur lx /\ c_ps lx' = c_ps lx)
+  | x :: _ =>
+    c_cur lx' = e_end (last consumed x) /\ byte (c_ps lx') < byte (c_cur lx')
+    /\ c_ps lx' = (if pos_eqb (c_ps lx) (c_cur lx) then e_start x else c_ps lx)
+  end.
+Proof. reflexivity. Qed.
+Print Assumptions C14_moved_meaning.
+
+Theorem C14_spanned_exact :
+  forall m, 1 <= tabw m -> forall t, wf_text t ->
+  forall f a lx ys c st x s sp v lx' st', Inv m t lx ys -> kept (c_filter lx) ys = x :: s ->
+  core0 a = true ->
+  run (S f) (GSpanned a) lx c st = (ROk (VSpanned sp v) lx', st') ->
+  exists ys' consumed, Inv m t lx' ys' /\ x :: s = consumed ++ kept (c_filter lx) ys'
+    /\ match consumed with
+       | [] => byte (sstart sp) = byte (send sp)
+       | y :: _ => sp = mkspan (e_start y) (e_end (last consumed y)) /\ y = x
+       end.
+Proof. exact spanned_exact. Qed.
+Print Assumptions C14_spanned_exact.
+
+Theorem C14_text_exact :
+  forall m, 1 <= tabw m -> forall t, wf_text t ->
+  forall f a lx ys c st x s b e lx' st', Inv m t lx ys -> kept (c_filter lx) ys = x :: s ->
+  core0 a = true ->
+  run (S f) (GText a) lx c st = (ROk (VText b e) lx', st') ->
+  exists ys' consumed, Inv m t lx' ys' /\ x :: s = consumed ++ kept (c_filter lx) ys'
+    /\ match consumed with
+       | [] => b = e
+       | y :: _ => b = byte (e_start y) /\ e = byte (e_end (last consumed y)) /\ y = x
+       end.
+Proof. exact text_exact. Qed.
+Print Assumptions C14_text_exact.
+
 
 Theorem C14_spanned_shape :
   forall m, 1 <= tabw m -> forall t, wf_text t ->
